@@ -41,6 +41,8 @@ def ann(t):
         return "(%s)->(%s)" % (", ".join(ann(x) for x in t["ps"]), ann(t["r"]))
     if k == "comp":
         return t["name"] + ("<%s>" % ", ".join(ann(x) for x in t["args"]) if t["args"] else "")
+    if k == "var":
+        return t["n"]
     raise ValueError(k)
 
 
@@ -128,11 +130,152 @@ POS = {
 }
 
 
+def inh_ctx(t):
+    """inhabitant of a type inside `fn outer<T, U>(t: T, u: U)`"""
+    k = t["k"]
+    if k == "var":
+        return t["n"].lower()
+    if k == "seq":
+        return "[]" if t["a"]["k"] == "unknown" else "[%s]" % inh_ctx(t["a"])
+    if k == "opt":
+        return "none()" if t["a"]["k"] == "unknown" else "some(%s)" % inh_ctx(t["a"])
+    if k == "tup":
+        return "(%s)" % ", ".join(inh_ctx(x) for x in t["items"])
+    if k == "fn":
+        ps = ", ".join("q%d: %s" % (i, ann(p)) for i, p in enumerate(t["ps"]))
+        body = "q0" if t["ps"] and t["ps"][0] == t["r"] else inh_ctx(t["r"])
+        return "((%s) -> {%s})" % (ps, body)
+    if k == "comp":
+        return "%s(%s)" % (t["name"], ", ".join(inh_ctx(x) for x in t["args"]))
+    return inh(t)
+
+
+CTX_POS = {
+    "glet": lambda R, S, i: ("", "let v%d: %s = %s;" % (i, R, S)),
+    "garg": lambda R, S, i: ("", "fn inner%d(p: %s)->int { 0 }\n    let v%d = inner%d(%s);" % (i, R, i, i, S)),
+    "greturn": lambda R, S, i: ("", "fn inner%d()->%s { %s }" % (i, R, S)),
+    "gcallparam": lambda R, S, i: (", c: (%s)->(int)" % R, "let v%d = c(%s);" % (i, S)),
+    "gelement": lambda R, S, i: ("", "let v%d: Sequence<%s> = [%s];" % (i, R, S)),
+}
+
+
+def ctx_src(c, p, i):
+    extra, body = CTX_POS[p](ann(c["req"]), inh_ctx(c["sup"]), i)
+    return "fn outer%d<T, U>(t: T, u: U%s)->int {\n    %s\n    0\n}\n" % (i, extra, body)
+
+
+def generic_context(chk, tier, seed):
+    """XrTypesCtx: assignability among rigid type parameters inside a generic function body"""
+    r = vf.tlc("XrTypesCtx", "XrTypesCtx.cfg", "c04-ctx", workers=1, timeout=3000)
+    if not r.ok:
+        raise vf.ToolError("XrTypesCtx failed (a law of rigid parameters does not hold on the model?):\n" + r.out[-2500:])
+    chk.add_tlc(r)
+    cases = r.cases()
+    positions = list(CTX_POS)
+    yes = [(c, p) for c in cases for p in positions if c["assign"] == "yes"]
+    no = [(c, p) for c in cases for p in positions if c["assign"] == "no"]
+    if tier == "quick":
+        no = no[seed % 2::2]
+    jobs, meta = [], {}
+    for b in range(0, len(yes), 30):
+        jid = "cy%d" % b
+        jobs.append({"id": jid, "src": DECLS + "".join(ctx_src(c, p, k) for k, (c, p) in enumerate(yes[b:b + 30])), "compile_only": True})
+        meta[jid] = yes[b:b + 30]
+    for k, (c, p) in enumerate(no):
+        jobs.append({"id": "cn%d" % k, "src": DECLS + ctx_src(c, p, 0), "compile_only": True})
+        meta["cn%d" % k] = [(c, p)]
+    res = vf.run_jobs(jobs, "c04-ctx")
+    solo = []
+    for j in jobs:
+        if j["id"].startswith("cy") and vf.job_outcome(res[j["id"]]) != "ok":
+            for k, (c, p) in enumerate(meta[j["id"]]):
+                sid = "%s_%d" % (j["id"], k)
+                solo.append({"id": sid, "src": DECLS + ctx_src(c, p, 0), "compile_only": True})
+                meta[sid] = [(c, p)]
+    res.update(vf.run_jobs(solo, "c04-ctx-solo"))
+    n = 0
+    for j in jobs + solo:
+        if len(meta[j["id"]]) > 1:
+            if vf.job_outcome(res[j["id"]]) == "ok":
+                n += len(meta[j["id"]])
+            continue
+        (c, p), = meta[j["id"]]
+        n += 1
+        chk.nontrivial(["ctx", c["req"], c["sup"], p])
+        o = res[j["id"]]
+        oc = vf.job_outcome(o)
+        if oc not in ("ok", "compile_err"):
+            chk.violation("compiling `%s` : %s" % (j["src"][len(DECLS):][-220:], oc), {"kind": "assign", "source": j["src"], "observed": oc, "detail": o.get("compile")})
+            continue
+        want = c["assign"] == "yes"
+        if (oc == "ok") != want:
+            chk.violation("inside fn outer<T, U>, %s position: required %s, supplied %s (%s): the rules for rigid type parameters say %s, compiler %s" %
+                          (p, ann(c["req"]), ann(c["sup"]), inh_ctx(c["sup"]), "assignable" if want else "not assignable",
+                           "accepts" if oc == "ok" else "rejects: " + o["compile"].get("msg", "")[:150]),
+                          {"kind": "assign", "source": j["src"], "position": p, "req": c["req"], "sup": c["sup"],
+                           "expected": "accept" if want else "reject", "observed": "accept" if oc == "ok" else o["compile"]},
+                          finding_key="ctx:%s:%s<-%s" % (p, ann(c["req"]), ann(c["sup"])))
+    chk.count(n)
+    chk.part("generic_context", pairs=len(cases), positions=positions, expected_accept=len(yes), expected_reject=len(no))
+
+
+SHADOW = [
+    # (name, body lines inside ctx(), expected accept?)  P = outer struct P(x: int); inside ctx a second `P` is declared
+    ("arg_outer_fn_inner_val", "let v = takes_outer(inner_val);", False),
+    ("arg_outer_fn_outer_val", "let v = takes_outer(outer_val);", True),
+    ("array_mixed", "let v = [outer_val, inner_val];", False),
+    ("array_mixed_rev", "let v = [inner_val, outer_val];", False),
+    ("array_inner", "let v = [inner_val, inner_val];", True),
+    ("let_inner_annot_outer_val", "let v: P = outer_val;", False),
+    ("let_inner_annot_inner_val", "let v: P = inner_val;", True),
+    ("arg_inner_fn_outer_val", "fn takes_inner(p: P)->int { 0 }\n    let v = takes_inner(outer_val);", False),
+    ("arg_inner_fn_inner_val", "fn takes_inner(p: P)->int { 0 }\n    let v = takes_inner(inner_val);", True),
+    ("opt_mixed", "let v = [some(outer_val), some(inner_val)];", False),
+    ("generic_pick", "let v = pick(outer_val, inner_val);", False),
+    ("callable_outer_inner_val", "let v = apply_outer(takes_outer, inner_val);", False),
+]
+
+
+def shadowed_compounds(chk):
+    """two declarations of the same name in nested scopes are two types (assignability is by declaration)"""
+    variants = [("struct P(x: int)", "P(1)", "struct P(x: str)", 'P("a")'),
+                ("struct P(x: int)", "P(1)", "struct P(x: int)", "P(2)"),          # same shape, still another declaration: see below
+                ("union P(a: int, b: str)", "P::a(1)", "union P(a: str, b: int)", 'P::a("s")'),
+                ("struct P<T>(x: T)", "P(1)", "struct P<T>(x: T, y: T)", "P(1, 2)")]
+    jobs, meta = [], {}
+    for vi, (od, ov, idecl, iv) in enumerate(variants):
+        for name, body, accept in SHADOW:
+            if vi == 1:
+                continue      # structurally identical declarations: the documentation does not say; not compared
+            pty = "P<int>" if "<T>" in od else "P"
+            src = ("%s\nfn takes_outer(p: %s)->int { 0 }\nfn apply_outer(f: (%s)->(int), p: %s)->int { f(p) }\nfn pick<T>(a: T, b: T)->T { a }\n"
+                   "let outer_val = %s;\nfn ctx()->int {\n    %s\n    let inner_val = %s;\n    %s\n    0\n}\n" %
+                   (od, pty, pty, pty, ov, idecl, iv, body.replace(": P =", ": %s =" % pty).replace("(p: P)", "(p: %s)" % pty)))
+            jid = "sh%d_%s" % (vi, name)
+            jobs.append({"id": jid, "src": src, "compile_only": True})
+            meta[jid] = (name, accept, vi)
+    res = vf.run_jobs(jobs, "c04-shadow")
+    for j in jobs:
+        name, accept, vi = meta[j["id"]]
+        o = res[j["id"]]
+        oc = vf.job_outcome(o)
+        chk.count(1)
+        chk.nontrivial(["shadow", vi, name])
+        if oc not in ("ok", "compile_err") or (oc == "ok") != accept:
+            chk.violation("shadowed compound, %s: expected %s, compiler: %s %s" % (name, "accepted" if accept else "rejected", oc,
+                                                                                   str(o.get("compile", {}).get("msg", ""))[:160]),
+                          {"kind": "assign", "source": j["src"], "expected": "accept" if accept else "reject", "observed": oc},
+                          finding_key="shadow:%d:%s" % (vi, name))
+    chk.part("shadowed_compounds", programs=len(jobs))
+
+
 def run(chk, tier, seed):
     for declared in (False, True):
         STYLE["declared"] = declared
         HELPERS.clear()
         run_style(chk, tier, seed, declared)
+    generic_context(chk, tier, seed)
+    shadowed_compounds(chk)
 
 
 def mk(body):
